@@ -203,7 +203,8 @@ func init() {
 	fileCfg := "clients=2,wdel=3,wdm=1,wsnap=4,wfull=1,wbulk=2,noreopen,settle_s=12,filecheck"
 	reg(&checkSpec{
 		ID: "C06", Harness: "eng", Inst: storagePkgs, Level: "exploration", Classes: []string{"C06:"},
-		Cfgs:      []cfgSpec{{Name: "keycursor-over-engine-files", Cfg: fileCfg + ",nocompactcheck,notombcheck", Gating: true, Share: 1}},
+		Cfgs: []cfgSpec{{Name: "keycursor-over-engine-files", Cfg: fileCfg + ",nocompactcheck,notombcheck", Gating: true, Share: 1},
+			{Name: "keycursor-over-many-uncompacted-files", Cfg: fileCfg + ",nocompactcheck,notombcheck,nocompact,wsnap=9,maxops=90", Gating: true, Share: 1}},
 		QuickSecs: 45, ThoroughSecs: 600, MaxRunsPerProc: 150,
 		Rule:      "one case = the set of TSM files and tombstones a real engine produced under one generated write/overwrite/delete/snapshot/compaction program and seeded schedule, read through KeyCursor at every timestamp +-1 of every key, both directions, scalar and array form; non-trivial = at least 4 operations and one context switch; distinct = distinct hash of (operations, schedule)",
 		Probes:    []string{"filecheck_multi_file", "filecheck_tombstones", "keycursor_reads"},
@@ -212,7 +213,8 @@ func init() {
 	})
 	reg(&checkSpec{
 		ID: "C04", Harness: "eng", Inst: storagePkgs, Level: "exploration", Classes: []string{"C04:"},
-		Cfgs:      []cfgSpec{{Name: "compactor-over-engine-files", Cfg: fileCfg + ",nokeycursor,notombcheck", Gating: true, Share: 1}},
+		Cfgs: []cfgSpec{{Name: "compactor-over-engine-files", Cfg: fileCfg + ",nokeycursor,notombcheck", Gating: true, Share: 1},
+			{Name: "compactor-over-many-uncompacted-files", Cfg: fileCfg + ",nokeycursor,notombcheck,nocompact,wsnap=9,maxops=90", Gating: true, Share: 1}},
 		QuickSecs: 45, ThoroughSecs: 600, MaxRunsPerProc: 150,
 		Rule:      "one case = the set of TSM files and tombstones a real engine produced under one generated program and schedule, compacted by the real Compactor in full and fast mode with points-per-block 1000, a tape-chosen small value and 10000; outputs compared with the newest-wins merge of the inputs; non-trivial = at least 4 operations and one context switch; distinct = distinct hash of (operations, schedule)",
 		Probes:    []string{"filecheck_multi_file", "filecheck_tombstones", "compactions_checked"},
